@@ -104,6 +104,39 @@ Fixpoint render (v : jv) : list Z :=
   | JObj m => 123 :: join (map (fun kv => render_str (fst kv) ++ 58 :: render (snd kv)) m) ++ [125]
   end.
 
+(* ---------- well-formed values (the domain of the round-trip theorem) ---------- *)
+Definition all_digits (ds : list Z) : bool := forallb is_digit ds.
+Definition wf_int (ip : list Z) : bool :=
+  match ip with
+  | [] => false
+  | c :: ds => ((c =? 48) && match ds with [] => true | _ => false end) || (is_digit19 c && all_digits ds)
+  end.
+Definition wf_exp (e : option (Z * list Z * list Z)) : bool :=
+  match e with
+  | None => true
+  | Some (ec, sg, ds) =>
+    ((ec =? 101) || (ec =? 69)) &&
+    match sg with [] => true | [c] => (c =? 43) || (c =? 45) | _ => false end &&
+    match ds with [] => false | _ => all_digits ds end
+  end.
+Definition wf_num (t : numtok) : bool := wf_int (n_int t) && all_digits (n_frac t) && wf_exp (n_exp t).
+
+Fixpoint wf (v : jv) : bool :=
+  match v with
+  | JNull | JBool _ => true
+  | JNum t => wf_num t
+  | JStr s => forallb scalarb s
+  | JArr l => forallb wf l
+  | JObj m => forallb (fun kv => forallb scalarb (fst kv) && wf (snd kv)) m
+  end.
+
+Fixpoint depth (v : jv) : nat :=
+  match v with
+  | JArr l => S (fold_right (fun x a => Nat.max (depth x) a) O l)
+  | JObj m => S (fold_right (fun kv a => Nat.max (depth (snd kv)) a) O m)
+  | _ => O
+  end.
+
 (* ---------- parsing ---------- *)
 Inductive pres (A : Type) :=
 | POk (a : A) (rest : list Z)
@@ -308,13 +341,13 @@ Fixpoint parse_value (fuel : nat) (s : list Z) : pres jv :=
       if c =? 123 then
         match skip_ws r with
         | c' :: r' => if c' =? 125 then POk (JObj []) r'
-                      else pmap JObj (parse_members (parse_value f) (length r) r)
+                      else pmap JObj (parse_members (parse_value f) (S (length r)) r)
         | [] => PErr
         end
       else if c =? 91 then
         match skip_ws r with
         | c' :: r' => if c' =? 93 then POk (JArr []) r'
-                      else pmap JArr (parse_elems (parse_value f) (length r) r)
+                      else pmap JArr (parse_elems (parse_value f) (S (length r)) r)
         | [] => PErr
         end
       else if c =? 34 then pmap JStr (of_opt (parse_str r))
@@ -381,6 +414,34 @@ Fixpoint hm_append {A} (m : list (list Z * A)) (k : list Z) (v : A) : list (list
 Definition hm_of_pairs {A} (kvs : list (list Z * A)) : list (list Z * A) :=
   fold_left (fun m kv => hm_append m (fst kv) (snd kv)) kvs [].
 
+(* JSON-representable values: no function/object, every number accepted by [num_ok] (finite), texts and keys are
+   sequences of Unicode scalar values, keys of a dictionary pairwise different (HashMap invariant). *)
+Fixpoint nodupb (ks : list (list Z)) : bool :=
+  match ks with
+  | [] => true
+  | k :: r => negb (existsb (fun k' => list_eqb k k') r) && nodupb r
+  end.
+
+Fixpoint representable (num_ok : Z -> bool) (e : elem) : bool :=
+  match e with
+  | ENull | EBool _ => true
+  | ENum b => num_ok b
+  | EStr s => forallb scalarb s
+  | EArr l => forallb (representable num_ok) l
+  | EDict m => nodupb (map fst m) &&
+               forallb (fun kv => forallb scalarb (fst kv) && representable num_ok (snd kv)) m
+  | EOther => false
+  end.
+
+(* a number somewhere inside that [num_ok] rejects (NaN, +-Inf) *)
+Fixpoint has_bad_num (num_ok : Z -> bool) (e : elem) : bool :=
+  match e with
+  | ENum b => negb (num_ok b)
+  | EArr l => existsb (has_bad_num num_ok) l
+  | EDict m => existsb (fun kv => has_bad_num num_ok (snd kv)) m
+  | _ => false
+  end.
+
 (* buildPlainValueFromElement (repaired: dictionary members in keyOrder, empty list is a non-nil slice) *)
 Fixpoint build_plain (e : elem) : plain :=
   match e with
@@ -393,11 +454,38 @@ Fixpoint build_plain (e : elem) : plain :=
   | EOther => PNil
   end.
 
+(* The code BEFORE fixes/C19-1.patch, kept for the refutation example: a dictionary became a Go map, which
+   encoding/json writes with its keys sorted (byte order of UTF-8 = code point order). *)
+Fixpoint build_plain_pinned (e : elem) : plain :=
+  match e with
+  | ENull => PNil
+  | EStr s => PStr s
+  | EBool b => PBool b
+  | ENum b => PFloat b
+  | EArr l => PSlice (map build_plain_pinned l)
+  | EDict m => PMap (map (fun kv => (fst kv, build_plain_pinned (snd kv))) m)
+  | EOther => PNil
+  end.
+
+Fixpoint key_leb (a b : list Z) : bool :=
+  match a, b with
+  | [], _ => true
+  | _ :: _, [] => false
+  | x :: a', y :: b' => if x <? y then true else if y <? x then false else key_leb a' b'
+  end.
+Fixpoint insert_member {A} (kv : list Z * A) (l : list (list Z * A)) : list (list Z * A) :=
+  match l with
+  | [] => [kv]
+  | kv' :: r => if key_leb (fst kv) (fst kv') then kv :: l else kv' :: insert_member kv r
+  end.
+Definition sort_members {A} (l : list (list Z * A)) : list (list Z * A) := fold_right insert_member [] l.
+
 (* decimal digits of a non-negative integer, for the %v fallback *)
 Fixpoint digits_fuel (fuel : nat) (n : Z) (acc : list Z) : list Z :=
   match fuel with
   | O => acc
-  | S f => if n <? 10 then (48 + n) :: acc else digits_fuel f (n / 10) ((48 + n mod 10) :: acc)
+  | S f => if n <? 10 then (48 + n) :: acc
+           else let (q, r) := Z.div_eucl n 10 in digits_fuel f q ((48 + r) :: acc)
   end.
 Definition digits_of (n : Z) : list Z := digits_fuel (S (Z.to_nat (Z.log2 n))) n [].
 Definition show_int (n : Z) : list Z := if n <? 0 then 45 :: digits_of (- n) else digits_of n.
